@@ -360,3 +360,40 @@ pub fn shake_to_scalar(data: &[u8]) -> Scalar {
     h.finalize_xof().read(&mut okm);
     Scalar::from_bytes_wide(&okm)
 }
+
+/// exact algebraic relations of degree <= 2 among a prover's coins (and between coins and `others`: secrets,
+/// constants): equal / opposite coins, a coin that is the sum, difference or product of two operands, a zero
+/// coin, a coin seen in an earlier commitment. Each has probability ~ 1/r for honestly sampled coins.
+pub fn coin_relations(coins: &[(String, Scalar)], others: &[(String, Scalar)], previous: &[Scalar]) -> Vec<String> {
+    let mut found = vec![];
+    let mut operands: Vec<(String, Scalar)> = coins.to_vec();
+    operands.extend(others.iter().cloned());
+    operands.push(("1".into(), Scalar::ONE));
+    for (i, (ni, ci)) in coins.iter().enumerate() {
+        if bool::from(ci.is_zero()) {
+            found.push(format!("{}=0", ni));
+        }
+        for (a, (an, av)) in operands.iter().enumerate() {
+            if a == i {
+                continue;
+            }
+            if ci == av || *ci == -*av {
+                found.push(format!("{}=±{}", ni, an));
+            }
+            for (b, (bn, bv)) in operands.iter().enumerate().skip(a + 1) {
+                if b == i {
+                    continue;
+                }
+                for (op, val) in [("*", *av * *bv), ("+", *av + *bv), ("-", *av - *bv)] {
+                    if *ci == val || *ci == -val {
+                        found.push(format!("{}=±({}{}{})", ni, an, op, bn));
+                    }
+                }
+            }
+        }
+        if previous.contains(ci) {
+            found.push(format!("{} repeats a coin of an earlier commitment", ni));
+        }
+    }
+    found
+}
